@@ -113,6 +113,12 @@ def _suffix_vars(expr, fe, nid):
         for c in ast.walk(e):
             if isinstance(c, ast.Call) and isinstance(c.func, ast.Name) and c.func.id in ("get_comparison_suffix", "get_negated_comparison_suffix") and c.args:
                 out[norm(c.args[0])] = c.args[0]
+            elif isinstance(c, ast.Call) and isinstance(c.func, ast.Name) and c.args:
+                # a local alias of one of the two helpers:  suffix_for = get_comparison_suffix if negate else get_negated_comparison_suffix
+                ds = fe.rd.at(at, c.func.id)
+                if ds and all(d.kind == "assign" and d.value is not None and any(isinstance(x, ast.Name) and x.id in ("get_comparison_suffix", "get_negated_comparison_suffix")
+                                                                                    for x in ast.walk(d.value)) for d in ds):
+                    out[norm(c.args[0])] = c.args[0]
             if isinstance(c, ast.Name) and depth < 3 and (c.id, at) not in seen:
                 seen.add((c.id, at))
                 for d in fe.rd.at(at, c.id):
